@@ -107,15 +107,21 @@ def _run_threads(desc):
     dmin = min(O.brute_hkls(cell, sym, 1.0)[0].values())
     lim = round(dmin * 1.45, 4)
     want = sorted(O.brute_hkls(cell, sym, lim)[0])
-    codes = (uc_mod.unitcell.gethkls.__code__, uc_mod.unitcell.makerings.__code__)
+    wantds = O.brute_hkls(cell, sym, lim)[0]
+    codes = (uc_mod.unitcell.gethkls.__code__, uc_mod.unitcell.makerings.__code__, uc_mod.unitcell.ds.__code__)
     holder = {}
+    # an unrelated phase that another worker thread works on (its own object, nothing passed between the threads)
+    cell2, sym2 = HIST_LATTICES[(li + 3) % len(HIST_LATTICES)]
+    lim2 = round(min(O.brute_hkls(cell2, sym2, 1.0)[0].values()) * 1.3, 4)
+    want2 = O.brute_hkls(cell2, sym2, lim2)[0]
 
     def reset():
         holder["uc"] = uc_mod.unitcell(cell, sym)
+        holder["uc2"] = uc_mod.unitcell(cell2, sym2)
 
     def listed(peaks):
         return [tuple(int(x) for x in p[1]) for p in peaks], [p[0] for p in peaks]
-    for mode in ("gethkls+gethkls", "gethkls+makerings"):
+    for mode in ("gethkls+gethkls", "gethkls+makerings", "gethkls+gethkls-of-another-cell-object"):
         def make():
             def a():
                 return listed(holder["uc"].gethkls(lim))
@@ -123,6 +129,8 @@ def _run_threads(desc):
             def b():
                 if mode == "gethkls+gethkls":
                     return listed(holder["uc"].gethkls(lim))
+                if mode == "gethkls+gethkls-of-another-cell-object":
+                    return listed(holder["uc2"].gethkls(lim2))
                 holder["uc"].makerings(lim - 1e-3, 1e-3)
                 return listed(holder["uc"].peaks)
             return [a, b]
@@ -135,9 +143,13 @@ def _run_threads(desc):
                     sh.violation("gethkls:concurrent-call-raises", dict(case, thread=t), {"error": repr(err[t])[:200]})
                     break
                 hk, ds = res[t]
-                if sorted(hk) != want or len(set(hk)) != len(hk) or any(ds[i] > ds[i + 1] for i in range(len(ds) - 1)):
+                wl, wd_ = (want, wantds) if (t == 0 or not mode.endswith("object")) else (sorted(want2), want2)
+                if sorted(hk) != wl or len(set(hk)) != len(hk) or any(ds[i] > ds[i + 1] for i in range(len(ds) - 1)):
                     sh.violation("gethkls:caller-received-an-incomplete-unsorted-or-duplicated-list", dict(case, thread=t),
-                                 {"n": len(hk), "expected": len(want), "duplicates": len(hk) - len(set(hk))})
+                                 {"n": len(hk), "expected": len(wl), "duplicates": len(hk) - len(set(hk))})
+                    break
+                if any(abs(d_ - wd_[h_]) > 1e-9 for h_, d_ in zip(hk, ds)):
+                    sh.violation("gethkls:listed-dstar-is-not-that-of-the-hkl", dict(case, thread=t), {})
                     break
             else:
                 hk, ds = listed(holder["uc"].gethkls(lim))
